@@ -334,6 +334,11 @@ pub fn run_c04(a: &Args) {
         let bound = 4 * (sc.max_len as usize + 5) + 65_536;
         if o.max_alloc > bound { why.push(format!("single allocation of {} bytes requested (configured maximum frame {} bytes; bound {bound})", o.max_alloc, sc.max_len)); }
         if sc.steps.iter().any(|s| matches!(s, Step::Eof)) && o.result == "running" { why.push("handler still running after the client's end of stream".into()); }
+        // a declared length that is non-positive or above the configured maximum is refused as such, at the prefix
+        if matches!(class.as_str(), "outer-len-neg" | "outer-len-zero" | "outer-len-max+1" | "outer-len-2^31-1") && matches!(o.result.as_str(), "ok" | "running" | "err:unexpected-id" | "err:invalid-encoding" | "err:illegal-enum" | "err:array-conversion") {
+            // (runs that ended earlier for a reason of their own — a rejected Encryption Response, a failing service — say nothing about the prefix)
+            why.push(format!("a frame declaring an illegal length (class {class}, configured maximum {}) was not refused as an illegal length: the run ended with {}", sc.max_len, o.result));
+        }
         cases.push(Case { request: o.request1.clone(), observed: o.observed.clone(), oracle: if why.is_empty() { None } else { Some(why.join("; ")) }, class: format!("{class}:{}:alloc<2^{}", o.result.split(':').next_back().unwrap_or(""), usize::BITS - o.max_alloc.leading_zeros()) });
     }
     cases.extend(crate::lst::c04_listener_cases());
